@@ -23,13 +23,13 @@ Definition ptf_check (c : Z * float * float * float * float * float) : nat :=
 Definition wred_check (c : bool * float * float * float) : nat :=
   let '(sand, wp, fc, out) := c in bit (float_same (calc_wred sand wp fc) out) 1.
 
-(* Hydro: (texture, LD, Corg, GRW, FELDW, LIM, PRGES, NORMFK, WRED) *)
-Definition hydro_check (rows : tables) (c : texture * Z * float * float * (float * float * float * float * float)) : nat :=
-  let '(t, ld, cg, grw, (feldw, lim, prges, normfk, wred)) := c in
+(* Hydro: (texture, LD, Corg, GRW, stone fraction, FELDW, LIM, PRGES, NORMFK, WRED) *)
+Definition hydro_check (rows : tables) (c : texture * Z * float * float * float * (float * float * float * float * float)) : nat :=
+  let '(t, ld, cg, grw, st, (feldw, lim, prges, normfk, wred)) := c in
   match triple_of rows t ld with
   | None => 64%nat
   | Some (fk, nfk, pv) =>
-      let h := hydro t fk nfk pv grw cg in
+      let h := hydro t fk nfk pv grw cg st in
       (bit (float_same (ho_feldw h) feldw) 1 + bit (float_same (ho_lim h) lim) 2 + bit (float_same (ho_prges h) prges) 4
        + bit (float_same (ho_normfk h) normfk) 8 + bit (float_same (ho_wred h) wred) 16)%nat
   end.
